@@ -161,9 +161,17 @@ fn c14() -> Property {
                 cases_per_seed: 1,
                 note: "real client <-> scripted peer that answers the application's detach, end or close with an error (optionally before it has seen the endpoint's frame)",
             },
+            Variant {
+                name: "peer-initiated-vs-listener",
+                weight: 1,
+                make: || Box::pin(scen::c14::run_peer_initiated_listener()),
+                max_steps: 3_000_000,
+                cases_per_seed: 1,
+                note: "real listener against a scripted peer that closes the connection or ends the session (with or without an error) while the listener application waits in SessionAcceptor::accept, LinkAcceptor::accept or recv: the waiting call fails, carries the peer's error, and the connection handle reports the peer's close",
+            },
         ],
-        quick_runs: 4 * scen::c14::CASES,
-        thorough_runs: 40 * scen::c14::CASES,
+        quick_runs: 5 * scen::c14::CASES,
+        thorough_runs: 41 * scen::c14::CASES,
         rule: "(a) per seed (= network behaviour and schedule) a fixed reference conversation (open, two sessions, an unsettled sender with three batchable sends of which one is multi-frame plus a plain send, a receiver with two deliveries, detach, close, end, close) is run once per (direction, byte offset 0..=2200 client->listener and 0..=1200 listener->client, cut kind in {eof, reset, stall-then-eof}), with the listener's receiver credit (default or 1) and session incoming window (default or 2) drawn from the seed; offsets beyond the conversation are counted as skipped (trivial); (b) per seed one scripted-peer run with the stop kind, error presence and position drawn from the seed; distinct = distinct event-log hash",
         assumptions: vec![
             "a call returning Ok after the cut is accepted when it raced the failure (its request was queued before the engine noticed); calls made after quiescence must fail",
